@@ -1,6 +1,8 @@
 package main
 
 import (
+	_ "verif/harness/firstop/smallops" // small-field operations
+
 	"bytes"
 	"crypto/sha256"
 	"fmt"
@@ -15,12 +17,6 @@ import (
 	"github.com/consensys/gnark-crypto/ecc/secp256k1"
 	starkfp2 "github.com/consensys/gnark-crypto/ecc/stark-curve/fp"
 	pedersenhash "github.com/consensys/gnark-crypto/ecc/stark-curve/pedersen-hash"
-	"github.com/consensys/gnark-crypto/field/babybear"
-	bbp2 "github.com/consensys/gnark-crypto/field/babybear/poseidon2"
-	"github.com/consensys/gnark-crypto/field/goldilocks"
-	glp2 "github.com/consensys/gnark-crypto/field/goldilocks/poseidon2"
-	"github.com/consensys/gnark-crypto/field/koalabear"
-	kbp2 "github.com/consensys/gnark-crypto/field/koalabear/poseidon2"
 )
 
 func errb(err error) []byte {
@@ -40,7 +36,11 @@ func init() {
 		b2 := e.Bytes()
 		return append(b[:], b2[:]...)
 	}
-	regLazy("grumpkin/mimc.NewMiMC.Write.Sum", func() []byte { h := grmimc.NewMiMC(); _, err := h.Write(grmsg()); return append(h.Sum(nil), errb(err)...) })
+	regLazy("grumpkin/mimc.NewMiMC.Write.Sum", func() []byte {
+		h := grmimc.NewMiMC()
+		_, err := h.Write(grmsg())
+		return append(h.Sum(nil), errb(err)...)
+	})
 	regLazy("grumpkin/mimc.Sum", func() []byte { r, err := grmimc.Sum(grmsg()); return append(r, errb(err)...) })
 	regLazy("grumpkin/mimc.GetConstants", func() []byte { return []byte(renderAny(grmimc.GetConstants())) })
 	regLazy("grumpkin/poseidon2.NewMerkleDamgardHasher.Write.Sum", func() []byte {
@@ -109,44 +109,4 @@ func init() {
 		return append(append(out, fmt.Sprint(ok)...), errb(err)...)
 	})
 
-	// small fields: default Poseidon2 parameters behind sync.OnceValue
-	regLazy("koalabear/poseidon2.NewMerkleDamgardHasher.Write.Sum", func() []byte {
-		h := kbp2.NewMerkleDamgardHasher()
-		var buf []byte
-		for i := 0; i < h.BlockSize()/koalabear.Bytes; i++ {
-			var e koalabear.Element
-			e.SetUint64(uint64(1000 + i))
-			b := e.Bytes()
-			buf = append(buf, b[:]...)
-		}
-		_, err := h.Write(buf)
-		return append(h.Sum(nil), errb(err)...)
-	})
-	regLazy("koalabear/poseidon2.GetDefaultParameters", func() []byte { return []byte(renderAny(kbp2.GetDefaultParameters())) })
-	regLazy("babybear/poseidon2.NewMerkleDamgardHasher.Write.Sum", func() []byte {
-		h := bbp2.NewMerkleDamgardHasher()
-		var buf []byte
-		for i := 0; i < h.BlockSize()/babybear.Bytes; i++ {
-			var e babybear.Element
-			e.SetUint64(uint64(1000 + i))
-			b := e.Bytes()
-			buf = append(buf, b[:]...)
-		}
-		_, err := h.Write(buf)
-		return append(h.Sum(nil), errb(err)...)
-	})
-	regLazy("babybear/poseidon2.GetDefaultParameters", func() []byte { return []byte(renderAny(bbp2.GetDefaultParameters())) })
-	regLazy("goldilocks/poseidon2.NewMerkleDamgardHasher.Write.Sum", func() []byte {
-		h := glp2.NewMerkleDamgardHasher()
-		var buf []byte
-		for i := 0; i < h.BlockSize()/goldilocks.Bytes; i++ {
-			var e goldilocks.Element
-			e.SetUint64(uint64(1000 + i))
-			b := e.Bytes()
-			buf = append(buf, b[:]...)
-		}
-		_, err := h.Write(buf)
-		return append(h.Sum(nil), errb(err)...)
-	})
-	regLazy("goldilocks/poseidon2.GetDefaultParameters", func() []byte { return []byte(renderAny(glp2.GetDefaultParameters())) })
 }
